@@ -138,8 +138,19 @@ def gen_equiv(seed: int, profile: str):
             if e is None:
                 e = g.over_agg(cur, cls if cls != "string" else "int", 2, window=True, part_explicit=part)
             e = harden(e)
+            pnames = [[n for n, c in cur.visible if c == pc][0] for pc in part_c]
+            hide = r.random() < 0.5 and len(cur.visible) > len(pnames) + 1 and _no_cname(e)
             a = S(id=T(), op="mutate", src=t, cols=[[nm, e]])
             gb = S(id=T(), op="group_by", src=t, cols=part)
+            if hide:
+                # the grouping column goes out of sight between group_by and the window function: it still partitions
+                how = r.choice(["drop", "select"])
+                if how == "drop":
+                    gb = S(id=T(), op="drop", src=gb, cols=list(pnames))
+                else:
+                    gb = S(id=T(), op="select", src=gb, cols=[n for n, _ in cur.visible if n not in pnames])
+                a = S(id=T(), op="drop", src=a, cols=list(pnames))
+                g.features.add("window_group_hidden_key")
             m = S(id=T(), op="mutate", src=gb, cols=[[nm, _strip(e, "partition_by")]])
             b = S(id=T(), op="ungroup", src=m)
             pair(a, b)
